@@ -2,6 +2,7 @@ package mon
 
 import (
 	"strings"
+	"sync"
 
 	"diagonal.works/b6"
 	"diagonal.works/b6/ingest"
@@ -27,7 +28,7 @@ func init() {
 		Assumptions: []string{"upper versions keep the geometry of the base version (each layer is a self-contained valid world)"},
 		Quick:       400, Thorough: 40000,
 		Required: []string{"shape_overlapping", "shape_disjoint", "shape_upper-subset-of-base", "shape_upper-superset-of-base", "shape_three-layers",
-			"shared_ids", "shared_id_differs", "shared_upper_matches_query_base_does_not", "shared_base_matches_query_upper_does_not"},
+			"shared_ids", "shared_id_differs", "restricted_enumerations", "shared_upper_matches_query_base_does_not", "shared_base_matches_query_upper_does_not"},
 		Run: func(c *core.Ctx) {
 			r := c.R
 			shape := shapes[c.Index%len(shapes)]
@@ -144,6 +145,44 @@ func init() {
 			c.Add("shared_ids", shared)
 			c.Add("shared_id_differs", differs)
 			absent := []b6.FeatureID{{Type: b6.FeatureTypePoint, Namespace: b6.NamespaceOSMNode, Value: 990001}, {Type: b6.FeatureTypeRelation, Namespace: b6.NamespaceOSMRelation, Value: 990002}}
+			// restricted enumerations first (the same world object is then enumerated again without
+			// restrictions by Conform): each must deliver exactly the model's ids of the types not skipped
+			optionSets := []b6.EachFeatureOptions{
+				{SkipPoints: true}, {SkipPaths: true, SkipAreas: true}, {SkipRelations: true, SkipCollections: true},
+				{SkipPoints: true, SkipPaths: true, SkipAreas: true, SkipRelations: true, SkipCollections: true, SkipExpressions: true},
+				{SkipAreas: true, SkipRelations: true, Goroutines: 2},
+			}
+			for n := r.Range(1, 3); n > 0; n-- {
+				o := core.Pick(r, optionSets)
+				seen := map[b6.FeatureID]int{}
+				var mu sync.Mutex
+				err := world.EachFeature(func(f b6.Feature, g int) error {
+					mu.Lock()
+					seen[f.FeatureID()]++
+					mu.Unlock()
+					return nil
+				}, &o)
+				c.Count("restricted_enumerations")
+				if err != nil {
+					c.Violate("each-with-options:error", nil, "EachFeature(%+v) returned %v", o, err)
+				}
+				for _, id := range model.IDs() {
+					want := 1
+					if o.IsSkipped(id.Type) {
+						want = 0
+					}
+					if seen[id] != want {
+						c.Violate("each-with-options:wrong-count", map[string]any{"shape": shape}, "EachFeature(%+v) delivered %s %d times, expected %d", o, id, seen[id], want)
+						break
+					}
+				}
+				for id := range seen {
+					if _, ok := model.F[id]; !ok {
+						c.Violate("each-with-options:phantom", nil, "EachFeature(%+v) delivered %s which is not in the model", o, id)
+						break
+					}
+				}
+			}
 			for _, d := range model.Conform(world, absent, wm.StandardQueries(), true) {
 				c.Violate(d.Class, map[string]any{"shape": shape}, "%s overlay: %s", shape, d.Detail)
 			}
